@@ -426,9 +426,6 @@ Section Proofs.
   Definition chunking (sent : list smsg) (sched : list ev) (tail : list abyte) : Prop :=
     astream sent = wstream sched ++ tail.
 
-  Lemma inv_init sent tl : Forall frame_ok sent -> Inv rstate0 [] tl sent -> True.
-  Proof. trivial. Qed.
-
   Lemma inv_start sent w : Forall frame_ok sent -> astream sent = w -> Inv rstate0 [] w sent.
   Proof.
     intros F E. constructor; cbn [rstate0 buf filled fds_in]; try reflexivity.
@@ -621,4 +618,181 @@ Section Proofs.
         cbn [drain_ev ev_stream]. rewrite arr_stream_repeat. exact IH. }
       destruct (run_inv _ _ _ _ _ _ _ _ I1' E2) as (_ & _ & _ & _ & B2). exact B2.
   Qed.
+
+  (** * Everything about one run in one statement *)
+  Theorem reassembly_full sent sched tail st q os :
+    Forall frame_ok sent -> chunking sent sched tail -> run D decode_fields sched = (st, q, os) ->
+    exists n, (n <= length sent)%nat
+      (* handed out: exactly the first n messages, in order *)
+      /\ Forall2 is_message_of (delivered D os) (firstn n sent)
+      (* every other result is "done", "timed out" or "still blocked" *)
+      /\ Forall benign os
+      (* nothing lost, duplicated or moved: buffered part (with the descriptors collected) ++ kernel
+         queue ++ unwritten rest = stream of the messages not handed out yet *)
+      /\ annot (peek st) (fds_in st) ++ flat q ++ tail = astream (skipn n sent)
+      /\ peek st ++ kbytes q ++ bytes_of tail = concat (map fst (skipn n sent))
+      (* the buffer never extends past the current frame, so no recvmsg can read into the next one *)
+      /\ filled st <= len (buf st) /\ len (buf st) <= headlen (skipn n sent)
+      /\ match skipn n sent with
+         | [] => filled st = 0 /\ fds_in st = []
+         | m :: _ => peek st = firstnN (filled st) (fst m) /\ fds_in st = (if filled st =? 0 then [] else snd m)
+         end.
+  Proof.
+    intros F C E. destruct (reassembly sent sched tail st q os F C E) as (n & Hn & H2 & B & I).
+    exists n. destruct (inv_plain _ _ _ _ I) as (P1 & P2 & P3 & P4).
+    pose proof (inv_conservation _ _ _ _ I). auto 10.
+  Qed.
+
+  (** * What "is the message of" means: header of the frame, its last body_len bytes, its descriptors *)
+  Lemma finish_shape p fds d : finish D decode_fields p fds = (ROk d, true) ->
+    m_fds d = fds /\ unmarshal_header p = ROk (m_hdr d) /\ len (m_body d) = h_body_len (m_hdr d)
+    /\ exists pre, p = pre ++ m_body d.
+  Proof.
+    unfold finish. destruct (unmarshal_header p) as [h|e]; [|intros [=]].
+    destruct (unmarshal_dynamic_header D decode_fields h p) as [[d0 c]|e]; [|intros [=]].
+    unfold unmarshal_next_message.
+    destruct (len p - c <? pad8 c); [intros [=]|].
+    destruct (negb (forallb _ _)); [intros [=]|].
+    destruct (N.eqb_spec (h_body_len h) 0) as [E0|E0].
+    - intros [= <-]. cbn. repeat split; [symmetry; exact E0|]. exists p. now rewrite app_nil_r.
+    - destruct (len p - (c + pad8 c) <? h_body_len h); [intros [=]|].
+      destruct (N.eqb_spec (len p - (c + pad8 c)) (h_body_len h)) as [E|E]; cbn [negb]; [|intros [=]].
+      intros [= <-]. cbn. repeat split.
+      + rewrite len_skipnN. exact E.
+      + exists (firstnN (c + pad8 c) p). symmetry. apply firstnN_skipnN.
+  Qed.
 End Proofs.
+
+(** * An independent description of a frame (D-Bus specification, "Message Format"), and the proof
+      that such frames satisfy [frame_ok] *)
+Ltac Zify.zify_post_hook ::= Z.div_mod_to_equations.
+
+Definition enc_u32 (bo : endian) (n : N) : list N :=
+  let b0 := n mod 256 in
+  let b1 := (n / 256) mod 256 in
+  let b2 := (n / 65536) mod 256 in
+  let b3 := (n / 16777216) mod 256 in
+  match bo with LE => [b0; b1; b2; b3] | BE => [b3; b2; b1; b0] end.
+
+Lemma u32_digits n : n < 4294967296 ->
+  n mod 256 + (n / 256) mod 256 * 256 + (n / 65536) mod 256 * 65536 + (n / 16777216) mod 256 * 16777216 = n.
+Proof.
+  intros H.
+  replace (n / 65536) with (n / 256 / 256) by (rewrite N.div_div by lia; reflexivity).
+  replace (n / 16777216) with (n / 256 / 256 / 256) by (rewrite !N.div_div by lia; reflexivity).
+  set (a := n / 256). set (b := a / 256). set (c := b / 256).
+  assert (n = 256 * a + n mod 256) by (apply N.div_mod').
+  assert (a = 256 * b + a mod 256) by (apply N.div_mod').
+  assert (b = 256 * c + b mod 256) by (apply N.div_mod').
+  assert (c mod 256 = c).
+  { apply N.mod_small. subst c b a.
+    apply N.div_lt_upper_bound; [lia|]. apply N.div_lt_upper_bound; [lia|]. apply N.div_lt_upper_bound; lia. }
+  lia.
+Qed.
+Lemma parse_enc_u32 bo n rest : n < 4294967296 -> parse_u32 (enc_u32 bo n ++ rest) bo = ROk n.
+Proof.
+  intros H. destruct bo; cbn [enc_u32 app parse_u32]; f_equal; apply u32_digits; exact H.
+Qed.
+Lemma len_enc_u32 bo n : len (enc_u32 bo n) = 4.
+Proof. destruct bo; reflexivity. Qed.
+Lemma skipnN_len_app {A} n (a b : list A) : len a = n -> skipnN n (a ++ b) = b.
+Proof. intros <-. apply skipnN_app_len. Qed.
+
+Definition bo_byte (bo : endian) : N := match bo with LE => 108 | BE => 66 end.
+
+Section FrameSpec.
+  Variable D : Type.
+  Variable decode_fields : header -> list N -> option D.
+
+  (** fixed part: endianness flag, type 1..4, flags, protocol version 1, body length, non-zero serial,
+      length of the header-field array; then the fields, zero padding to an 8-byte boundary, the body.
+      Limits: fields array at most 2^26 bytes, the whole message at most 2^27. *)
+  Inductive Frame : list N -> Prop :=
+  | Frame_intro bo typ flags serial fields body :
+      1 <= typ <= 4 -> serial <> 0 -> serial < 4294967296 ->
+      len fields <= 67108864 ->
+      16 + len fields + (8 - (16 + len fields) mod 8) mod 8 + len body <= 134217728 ->
+      decode_fields {| h_bo := bo; h_typ := typ; h_flags := flags; h_body_len := len body; h_serial := serial |} fields <> None ->
+      Frame ([bo_byte bo; typ; flags; 1] ++ enc_u32 bo (len body) ++ enc_u32 bo serial
+             ++ enc_u32 bo (len fields) ++ fields ++ zeros ((8 - (16 + len fields) mod 8) mod 8) ++ body).
+
+  Lemma pad8_spec n : pad8 n = (8 - n mod 8) mod 8.
+  Proof.
+    unfold pad8. destruct (N.eqb_spec (8 - n mod 8) 8) as [E|E].
+    - rewrite E. reflexivity.
+    - symmetry. apply N.mod_small. remember (n mod 8) as x. lia.
+  Qed.
+
+  Lemma forallb_zeros n : forallb (fun x => x =? 0) (zeros n) = true.
+  Proof. unfold zeros. induction (N.to_nat n); [reflexivity|exact IHn0]. Qed.
+
+  Theorem Frame_frame_ok f fds : Frame f -> len fds <= cmsg_cap -> frame_ok D decode_fields (f, fds).
+  Proof.
+    intros HF Hc. destruct HF as [bo typ flags serial fields body Ht Hs0 Hs Hfl Htot Hdec].
+    set (pad := (8 - (16 + len fields) mod 8) mod 8) in *.
+    set (h := {| h_bo := bo; h_typ := typ; h_flags := flags; h_body_len := len body; h_serial := serial |}) in *.
+    set (f := [bo_byte bo; typ; flags; 1] ++ _).
+    assert (Hb : len body < 4294967296) by lia.
+    assert (Lf : len f = 16 + len fields + pad + len body).
+    { subst f. rewrite !len_app, !len_enc_u32, len_zeros. repeat rewrite len_cons. rewrite len_nil. lia. }
+    assert (Hh : unmarshal_header f = ROk h).
+    { unfold unmarshal_header. replace (len f <? HEADER_LEN) with false by (symmetry; apply N.ltb_ge; unfold HEADER_LEN; lia).
+      subst f. cbn [app].
+      replace (if bo_byte bo =? 108 then Some LE else if bo_byte bo =? 66 then Some BE else None) with (Some bo) by (destruct bo; reflexivity).
+      replace ((1 <=? typ) && (typ <=? 4)) with true by (symmetry; apply andb_true_iff; split; apply N.leb_le; lia).
+      cbn [negb N.eqb Pos.eqb]. rewrite parse_enc_u32 by exact Hb.
+      replace (skipnN 4 (enc_u32 bo (len body) ++ enc_u32 bo serial ++ enc_u32 bo (len fields) ++ fields ++ zeros pad ++ body))
+        with (enc_u32 bo serial ++ enc_u32 bo (len fields) ++ fields ++ zeros pad ++ body).
+      2:{ rewrite <- (len_enc_u32 bo (len body)). now rewrite skipnN_app_len. }
+      rewrite parse_enc_u32 by exact Hs.
+      replace (serial =? 0) with false by (symmetry; now apply N.eqb_neq). reflexivity. }
+    assert (H12 : skipnN HEADER_LEN f = enc_u32 bo (len fields) ++ fields ++ zeros pad ++ body).
+    { subst f. change HEADER_LEN with (4 + 4 + 4). rewrite <- !skipnN_skipnN.
+      rewrite (skipnN_len_app 4) by reflexivity.
+      rewrite (skipnN_len_app 4) by apply len_enc_u32.
+      rewrite (skipnN_len_app 4) by apply len_enc_u32. reflexivity. }
+    assert (H16 : skipnN 16 f = fields ++ zeros pad ++ body).
+    { replace 16 with (HEADER_LEN + 4) by reflexivity. rewrite <- skipnN_skipnN, H12.
+      rewrite <- (len_enc_u32 bo (len fields)). now rewrite skipnN_app_len. }
+    assert (Hp : parse_u32 (skipnN HEADER_LEN f) bo = ROk (len fields)).
+    { rewrite H12. apply parse_enc_u32. lia. }
+    assert (Hca : check_array_len (len fields) = ROk (len fields)).
+    { unfold check_array_len, MAX_ARRAY_LEN. now replace (67108864 <? len fields) with false by (symmetry; apply N.ltb_ge; lia). }
+    assert (Hpad : pad8 (16 + len fields) = pad) by apply pad8_spec.
+    split; [cbn [fst]; lia|]. split; [|split; [|exact Hc]]; cbn [fst snd].
+    - unfold needed_of. rewrite Hh. cbn [h_bo h]. rewrite Hp, Hca.
+      replace (HEADER_LEN + len fields + 4) with (16 + len fields) by (unfold HEADER_LEN; lia).
+      rewrite Hpad. change (h_body_len h) with (len body). unfold MAX_MESSAGE_LEN.
+      replace (134217728 <? 16 + len fields + pad + len body) with false by (symmetry; apply N.ltb_ge; lia).
+      now rewrite Lf.
+    - destruct (decode_fields h fields) as [d|] eqn:Ed; [|congruence].
+      unfold finish. rewrite Hh. unfold unmarshal_dynamic_header. cbn [h_bo h]. rewrite Hp, Hca.
+      replace (len f - 16 <? len fields) with false by (symmetry; apply N.ltb_ge; lia).
+      rewrite H16, firstnN_app_len. fold h. rewrite Ed.
+      unfold unmarshal_next_message. rewrite Hpad.
+      replace (len f - (16 + len fields) <? pad) with false by (symmetry; apply N.ltb_ge; lia).
+      replace (skipnN (16 + len fields) f) with (zeros pad ++ body).
+      2:{ rewrite <- skipnN_skipnN, H16. now rewrite skipnN_app_len. }
+      replace (firstnN pad (zeros pad ++ body)) with (zeros pad).
+      2:{ rewrite <- (len_zeros pad) at 2. now rewrite firstnN_app_len. }
+      rewrite forallb_zeros. cbn [negb]. change (h_body_len h) with (len body).
+      destruct (len body =? 0); [eexists; reflexivity|].
+      replace (len f - (16 + len fields + pad) <? len body) with false by (symmetry; apply N.ltb_ge; lia).
+      replace (len f - (16 + len fields + pad) =? len body) with true by (symmetry; apply N.eqb_eq; lia).
+      eexists; reflexivity.
+  Qed.
+End FrameSpec.
+
+(** * The Linux choice is one of the choices the theorems quantify over *)
+Lemma klimit_le_kavail q : klimit q <= kavail q.
+Proof. induction q as [|[bs [|x fds]] q IH]; cbn [klimit kavail]; lia. Qed.
+Lemma klimit_pos q : segs_ok q -> q <> [] -> 1 <= klimit q.
+Proof.
+  intros H Hq. destruct q as [|[bs fds] q]; [congruence|]. inversion H as [|? ? Hne _]; subst. cbn [fst] in Hne.
+  assert (1 <= len bs) by (destruct bs; [congruence|rewrite len_cons; lia]).
+  destruct fds; cbn [klimit]; lia.
+Qed.
+(* under [linux_choice] the clamp in refill_buffer is the identity *)
+Lemma linux_choice_exact q req : segs_ok q -> q <> [] -> 1 <= req ->
+  N.max 1 (N.min (N.min req (klimit q)) (N.min req (kavail q))) = N.min req (klimit q).
+Proof. intros H Hq Hr. pose proof (klimit_le_kavail q). pose proof (klimit_pos q H Hq). lia. Qed.
